@@ -16,7 +16,13 @@ CMDS = [(['reg'], (), {}), (['reg'], (), {'oldReg': True}), (['reg'], (), {'sing
         (['report', 'totals'], (), {}), (['report', 'unresolved'], (), {}), (['report', 'quantity'], (), {}), (['report', 'element-total'], ('calories',), {}),
         (['csv', 'log'], (), {}), (['csv', 'database'], (), {}), (['csv', 'database-resolved'], (), {}),
         (['summary'], ('2021/01/24',), {}), (['print'], (), {}), (['stats'], (), {}), (['lint'], ('food.yaml',), {}),
-        (['gen', 'man'], (), {}), (['gen', 'markdown'], (), {})]
+        (['gen', 'man'], (), {}), (['gen', 'markdown'], (), {}),
+        # switches that pick another writer or another layout, alone and combined
+        (['reg'], (), {'singleFood': 'a', 'csv': True}), (['reg'], (), {'singleFood': 'a', 'groupFood': True}), (['reg'], (), {'singleElement': 'calories', 'groupFood': True, 'csv': True}),
+        (['reg'], (), {'template': 'left-aligned'}), (['reg'], (), {'shorten': True}), (['reg'], (), {'totalsOnly': True}), (['reg'], (), {'noTotals': True}),
+        (['reg'], (), {'oldReg': True, 'totalsOnly': True}), (['reg'], (), {'oldReg': True, 'noTotals': True}), (['reg'], (), {'csv': True}),
+        (['bal'], (), {'collapseLast': True}), (['bal'], (), {'singleElement': 'calories', 'collapse': True}),
+        (['report', 'quantity'], (), {'desc': True}), (['report', 'element-total'], ('calories',), {'desc': True}), (['summary'], ('today',), {}), (['lint'], ('log.yaml',), {'silent': True})]
 
 
 class SinkCase:
